@@ -151,6 +151,19 @@ def _ctx():
         lambda h, i: ("case", ("val", 1), [(("pa", "p_same", [h], {}), ("val", "match"))], ("val", "else")),
     )
     add(
+        "case_cond2",
+        EAGER,
+        H,
+        # the first case matches: the condition of the second one (the hole) must not even be evaluated
+        lambda h, i: (
+            "case",
+            ("opt", _q(i, "y"), ("val", 1)),
+            [(("fn", "p_eq:1"), ("val", "first")), (("pa", "p_same", [h], {}), ("val", "second"))],
+            ("val", "else"),
+        ),
+        lambda i: [(_q(i, "y"), [ABSENT, 5])],
+    )
+    add(
         "case_other",
         ANY,
         alt,
